@@ -3,7 +3,8 @@ from .. import cfgrun, cfgstream, core, cutter
 
 RULE = ("valid and invalid texts of the C01/C05 corpus (with %define/uses mixed in), 1..3 balanced line ranges cut out "
         "into fragments (nested cuts allowed) placed in the same / a sub / the parent directory of the includer on a real "
-        "scratch tree; loadConfig(path of cut text) vs loadConfigFile(inline text); plus unbalanced cuts which must be "
+        "scratch tree, or reached through a %define-d absolute directory or URL, or the same fragment reached twice "
+        "(twice in one file, through two wrappers = a diamond); loadConfig(path of cut text) vs loadConfigFile(inline text); plus unbalanced cuts which must be "
         "rejected; non-trivial = at least one cut applied; distinct by (schema, text, cut)")
 
 
@@ -41,7 +42,16 @@ def run(ctx):
     inl, cuts, unb = [], [], []
     for c in base:
         c.lines = add_defines(rng, c.lines)
-        main, files, placements = cutter.cut(rng, c.lines, rng.choice([1, 1, 2, 3]))
+        k = rng.random()
+        special = None
+        if k < 0.15:
+            special = cutter.cut_via_define(rng, c.lines)
+        elif k < 0.35:
+            special = cutter.cut_shared(rng, c.lines)
+        if special:
+            c.lines, main, files, placements = special
+        else:
+            main, files, placements = cutter.cut(rng, c.lines, rng.choice([1, 1, 2, 3]))
         if not placements:
             ctx.count("no-cut-possible")
             continue
